@@ -121,3 +121,44 @@ def step_exprs(step):
 def step_calls(step):
     for expr in step_exprs(step):
         yield from calls_in(expr)
+
+
+_COMPS = (ast.ListComp, ast.GeneratorExp, ast.SetComp, ast.DictComp)
+
+
+def expand_in_context(step, raw: ast.AST, node: ast.AST) -> ast.AST:
+    """``step.expand(node)`` for a node inside ``raw`` - but when node sits inside a comprehension of raw, the
+    comprehension variables are bound too (to Σelem(iterable) etc.) by expanding the outermost enclosing
+    comprehension and walking down to the node's position in the expanded copy."""
+    parents = {}
+    for parent in ast.walk(raw):
+        for field, value in ast.iter_fields(parent):
+            if isinstance(value, ast.AST):
+                parents[id(value)] = (parent, field, None)
+            elif isinstance(value, list):
+                for idx, item in enumerate(value):
+                    if isinstance(item, ast.AST):
+                        parents[id(item)] = (parent, field, idx)
+    chain = []
+    cur = node
+    outer = None
+    while id(cur) in parents:
+        parent, field, idx = parents[id(cur)]
+        chain.append((field, idx))
+        cur = parent
+        if isinstance(cur, _COMPS):
+            outer = (cur, len(chain))
+    if outer is None:
+        return step.expand(node)
+    comp, depth = outer
+    expanded = step.expand(comp)
+    cur = expanded
+    for field, idx in reversed(chain[:depth]):
+        cur = getattr(cur, field, None)
+        if idx is not None and isinstance(cur, list):
+            cur = cur[idx] if idx < len(cur) else None
+        if cur is None:
+            return step.expand(node)
+    if type(cur) is not type(node):
+        return step.expand(node)
+    return cur
